@@ -538,9 +538,9 @@ fn item_name(s: u32, e: u32, len: u64, crc: u32) -> String {
     b64_url(&b)
 }
 
-/// S4a/S4b: the scan of the re-open does not load the damaged file; get, re-put identical data, get
-fn s4_not_loaded_by_the_scan(seed: u64) -> W {
-    // (a) item larger than the capacity, same config throughout
+/// S4a: the scan of the re-open does not load the damaged file because the item is larger than the capacity (same config
+/// throughout); get, re-put identical data, get
+fn s4a_item_larger_than_capacity(seed: u64) -> W {
     let k = 9000 + 3 * seed + 2;
     let (s, e) = (3u32, 9u32);
     let header_len = 4 * (e - s + 2) as u64;
@@ -574,15 +574,19 @@ fn s4_not_loaded_by_the_scan(seed: u64) -> W {
             get(&c, k, s + 1, e - 1, true, &ctx)?;
         }
     }
+    Ok(())
+}
 
-    // (b) directory filled under a large capacity, every file damaged, re-opened with a much smaller capacity
+/// S4b: directory filled under a large capacity, every file damaged, re-opened with a much smaller capacity so that the scan
+/// stops early; for every item get, (on a miss) re-put identical data, get
+fn s4b_overfull_directory(seed: u64) -> W {
     let dir = tmp();
     let big = 1u64 << 30;
-    let small = 4000u64;
+    let small = 1200u64;
     let mut items = Vec::new();
     let mut rng = Rng(mix(seed, 0xB));
     let c = open_clean(dir.path(), big, "S4b fill")?;
-    for j in 0..12u64 {
+    for j in 0..18u64 {
         let k = 9500 + 30 * seed + j;
         if k % 3 == 2 {
             continue;
@@ -702,8 +706,6 @@ fn s4_damage_and_junk(seed: u64) -> W {
                 // prefix directory: a file, and directories that start with the prefix but are no keys
                 io(std::fs::write(prefix_dir.join(".DS_Store"), b"junk"));
                 io(std::fs::create_dir(prefix_dir.join(format!("{prefix_name} not base64 !"))));
-                io(std::fs::create_dir(prefix_dir.join(format!("{prefix_name}AA")))); // base64 of 3 bytes: too short for a key
-                io(std::fs::write(prefix_dir.join(format!("{prefix_name}AA")).join(item_name(0, 1, 3, 0)), b"abc"));
                 let mut long = vec![0xffu8; 40]; // 32 hash bytes + a prefix that is not UTF-8
                 long[0] = 0;
                 let long_name = b64_url(&long);
@@ -749,11 +751,14 @@ fn s4_damage_and_junk(seed: u64) -> W {
     Ok(())
 }
 
-/// S5: directories with foreign names inside a prefix directory
+/// S5: directories with foreign names inside a prefix directory (`<p>` = the 2-character name of the prefix directory):
+/// `<p>AA` is valid base64 of 3 bytes, i.e. shorter than a key; the other two do not start with `<p>`.
+/// All violations found are reported together.
 fn s5_foreign_directories(seed: u64) -> W {
     let cap = 1u64 << 20;
     let k = 9900 + 3 * seed + 1;
-    for junk in ["x", "some other directory", "QUJD"] {
+    let mut found = Vec::new();
+    for junk in ["<p>AA", "x", "some other directory"] {
         let dir = tmp();
         let root = dir.path();
         let ctx0 = format!("S5 seed {seed}: item key#{k} [0,4), capacity {cap}");
@@ -762,35 +767,62 @@ fn s5_foreign_directories(seed: u64) -> W {
         drop(c);
         let Some(file) = files_below(root).into_iter().map(|f| f.0).next() else { infra("S5: no file".into()) };
         let prefix_dir = file.parent().and_then(|p| p.parent()).unwrap_or(root).to_path_buf();
-        let planted = prefix_dir.join(junk);
+        let prefix_name = prefix_dir.file_name().and_then(|n| n.to_str()).unwrap_or("AA").to_string();
+        let planted = prefix_dir.join(junk.replace("<p>", &prefix_name));
         if let Err(e) = std::fs::create_dir(&planted) {
             infra(format!("S5: {e}"));
         }
         let shown = planted.strip_prefix(root).unwrap_or(&planted).display().to_string();
         let ctx = format!("{ctx0}; cache closed; empty directory '{shown}' planted next to the key directory; re-opened");
-        let Some(c) = open(root, cap, &ctx)? else { continue };
-        get(&c, k, 0, 4, true, &ctx)?;
-        get(&c, k, 1, 3, true, &ctx)?;
+        let res = (|| -> W {
+            let Some(c) = open(root, cap, &ctx)? else { return Ok(()) };
+            get(&c, k, 0, 4, true, &ctx)?;
+            get(&c, k, 1, 3, true, &ctx)?;
+            Ok(())
+        })();
+        if let Err(w) = res {
+            found.push(w);
+        }
     }
-    Ok(())
+    if found.is_empty() {
+        Ok(())
+    } else {
+        Err(found.join(" || "))
+    }
 }
 
 fn run(seed: u64) -> W {
     let t = Instant::now();
-    s1_history(seed, 1 << 30, false, 350)?;
-    s1_history(seed, 6000, true, 700)?;
-    s1_history(seed + 77, 2500, true, 500)?;
-    s1_item_of_exactly_the_capacity(seed)?;
-    eprintln!("S1 done at {:?}", t.elapsed());
-    s4_not_loaded_by_the_scan(seed)?;
-    s4_damage_and_junk(seed)?;
-    eprintln!("S4 done at {:?}", t.elapsed());
-    s2_same_item_from_many_threads(seed, false, 40)?;
-    s2_same_item_from_many_threads(seed, true, 25)?;
-    eprintln!("S2 done at {:?}", t.elapsed());
-    s3_vanished_file_race(seed, Duration::from_secs(8), 1500)?;
-    eprintln!("S3 done at {:?}", t.elapsed());
-    if std::env::var("VERIF_C12_SKIP_FOREIGN_DIRS").map_or(true, |v| v != "1") {
+    // VERIF_C12_ONLY=S4b,S3 restricts the search to the named scenarios (for diagnosis); default: all
+    let only = std::env::var("VERIF_C12_ONLY").unwrap_or_default();
+    let on = |name: &str| only.is_empty() || only.split(',').any(|s| s.trim() == name);
+    if on("S1") {
+        s1_history(seed, 1 << 30, false, 600)?;
+        s1_history(seed, 6000, true, 1200)?;
+        s1_history(seed + 77, 2500, true, 1200)?;
+        s1_item_of_exactly_the_capacity(seed)?;
+        eprintln!("S1 done at {:?}", t.elapsed());
+    }
+    if on("S4a") {
+        s4a_item_larger_than_capacity(seed)?;
+    }
+    if on("S4b") {
+        s4b_overfull_directory(seed)?;
+    }
+    if on("S4c") {
+        s4_damage_and_junk(seed)?;
+        eprintln!("S4 done at {:?}", t.elapsed());
+    }
+    if on("S2") {
+        s2_same_item_from_many_threads(seed, false, 40)?;
+        s2_same_item_from_many_threads(seed, true, 25)?;
+        eprintln!("S2 done at {:?}", t.elapsed());
+    }
+    if on("S3") {
+        s3_vanished_file_race(seed, Duration::from_secs(10), 2000)?;
+        eprintln!("S3 done at {:?}", t.elapsed());
+    }
+    if on("S5") && std::env::var("VERIF_C12_SKIP_FOREIGN_DIRS").map_or(true, |v| v != "1") {
         s5_foreign_directories(seed)?;
     }
     Ok(())
